@@ -9,6 +9,7 @@ import (
 	"os"
 	"path/filepath"
 	"sort"
+	"strconv"
 	"strings"
 	"verifharness/internal/rng"
 )
@@ -17,11 +18,27 @@ import (
 // text, the command path the default source of the configured assembler)
 var defaultDriverSrc = "; default driver\n"
 
+// bulkFiles: the files of the current history that were planted by the hundred (plantmany, plantcases), with the size and
+// the kind they were planted with.  Reading a few thousand files after every operation is what makes a history with a
+// big directory expensive: such a file is looked at (lstat) and read only if it is no longer a regular file of that size.
+type bulkFile struct {
+	size int64
+	kind string
+}
+
+var bulkFiles map[string]bulkFile
+
 func dirListing(dir string) string {
 	entries, _ := os.ReadDir(dir)
 	parts := []string{}
 	for _, e := range entries {
 		n := e.Name()
+		if b, ok := bulkFiles[n]; ok {
+			if info, err := e.Info(); err == nil && info.Mode().IsRegular() && info.Size() == b.size {
+				parts = append(parts, n+"="+b.kind)
+				continue
+			}
+		}
 		if e.IsDir() {
 			// a sub directory and (one level of) its files
 			parts = append(parts, n+"=D")
@@ -58,107 +75,339 @@ func dirListing(dir string) string {
 	return strings.Join(parts, ",")
 }
 
-func caseRepoHistory(r *rng.R, n int) string {
-	dir, err := os.MkdirTemp("", "verif-repo")
-	if err != nil {
-		panic(err)
-	}
-	defer os.RemoveAll(dir)
+// repoHist: one history of repository operations on a real temporary directory; after every operation the result
+// and the complete directory content are recorded
+type repoHist struct {
+	dir, cfgFile string
+	viaCmd       bool
+	repo         verifier.CaseRepo
+	ops, outs    []string
+	tmp          []string
+}
+
+// newRepoHist: viaCmd = through the real newcase / delcase / list commands with a configuration file that names the directory
+func newRepoHist(viaCmd bool, asmType string) *repoHist {
+	h := &repoHist{viaCmd: viaCmd}
+	bulkFiles = map[string]bulkFile{}
+	h.dir = h.mkTemp("verif-repo")
 	defaultDriverSrc = "; default driver\n"
-	repo, _ := verifier.NewCaseRepo(dir, defaultDriverSrc)
-	// 40%: through the real newcase / delcase commands with a configuration file that names the directory
-	viaCmd := r.Chance(40)
-	cfgFile := ""
+	h.repo, _ = verifier.NewCaseRepo(h.dir, defaultDriverSrc)
 	if viaCmd {
-		cfgDir, err := os.MkdirTemp("", "verif-repocfg")
-		if err != nil {
-			panic(err)
-		}
-		defer os.RemoveAll(cfgDir)
+		cfgDir := h.mkTemp("verif-repocfg")
 		cfg := emuconfig.DefaultConfig()
-		cfg.AcmeTestDir = dir
-		cfg.AsmType = []string{"acme", "64tass", "ca65"}[r.Intn(3)]
-		cfgFile = filepath.Join(cfgDir, "config.json")
-		if err := cfg.Save(cfgFile); err != nil {
+		cfg.AcmeTestDir = h.dir
+		cfg.AsmType = asmType
+		h.cfgFile = filepath.Join(cfgDir, "config.json")
+		if err := cfg.Save(h.cfgFile); err != nil {
 			panic(err)
 		}
 		defaultDriverSrc = cfg.GetAssembler().GetDefaultSrc()
 		count("caserepo.viacommands")
 	}
+	return h
+}
+
+func (h *repoHist) mkTemp(pattern string) string {
+	d, err := os.MkdirTemp("", pattern)
+	if err != nil {
+		panic(err)
+	}
+	h.tmp = append(h.tmp, d)
+	return d
+}
+
+func (h *repoHist) close() {
+	for _, d := range h.tmp {
+		os.RemoveAll(d)
+	}
+}
+
+func (h *repoHist) record(op, res string) {
+	h.ops = append(h.ops, op)
+	h.outs = append(h.outs, res+"|"+dirListing(h.dir))
+}
+
+func (h *repoHist) recordErr(op string, err error) {
+	if err != nil {
+		h.record(op, "err")
+	} else {
+		h.record(op, "ok")
+	}
+}
+
+func (h *repoHist) write(name, content string) {
+	if err := os.WriteFile(filepath.Join(h.dir, name), []byte(content), 0600); err != nil {
+		panic(err)
+	}
+}
+
+// writeMany: the same content under many names.  Creating a file costs several times what a hard link costs, so all
+// names but the first are links to the first file (for the code under test they are regular files like any other).
+func (h *repoHist) writeMany(names []string, content, kind string) {
+	for i, n := range names {
+		if i == 0 {
+			h.write(n, content)
+		} else if err := os.Link(filepath.Join(h.dir, names[0]), filepath.Join(h.dir, n)); err != nil {
+			h.write(n, content)
+		}
+		bulkFiles[n] = bulkFile{int64(len(content)), kind}
+	}
+}
+
+func (h *repoHist) add(nm string) {
+	var err error
+	if h.viaCmd {
+		err = commands.NewCaseCommand([]string{"-c", h.cfgFile, "-p", nm, "-d", "d"})
+	} else {
+		err = h.repo.Add(nm, verifier.NewTestCase("d", nm), true)
+	}
+	h.recordErr("add:"+nm, err)
+}
+
+func (h *repoHist) addt(nm, dr string) {
+	var err error
+	if h.viaCmd {
+		err = commands.NewCaseCommand([]string{"-c", h.cfgFile, "-p", nm, "-d", "d", "-t", dr})
+	} else {
+		err = h.repo.Add(nm, verifier.NewTestCaseWithDriver("d", nm, dr), false)
+	}
+	h.recordErr("addt:"+nm+":"+dr, err)
+}
+
+func (h *repoHist) del(nm string) {
+	var err error
+	if h.viaCmd {
+		err = commands.DelCommand([]string{"-c", h.cfgFile, "-t", nm})
+	} else {
+		err = h.repo.Del(nm)
+	}
+	h.recordErr("del:"+nm, err)
+}
+
+// list: the enumeration behind list, verifyall and delcase; useCmd (command histories only): the real `list` command,
+// which prints one line `<description> => <case file>` per case (all descriptions are equal here)
+func (h *repoHist) list(useCmd bool) {
+	got := []string{}
+	var cnt uint
+	var err error
+	if h.viaCmd && useCmd {
+		var text []byte
+		var panicked bool
+		text, panicked = captureStdout(func() { err = commands.ListCommand([]string{"-c", h.cfgFile}) })
+		if panicked {
+			err = fmt.Errorf("panic")
+		}
+		for _, l := range strings.Split(string(text), "\n") {
+			if i := strings.LastIndex(l, " => "); i >= 0 {
+				got = append(got, strings.TrimSpace(l[i+4:]))
+			}
+		}
+		cnt = uint(len(got))
+		count("caserepo.listcommand")
+	} else {
+		cnt, err = h.repo.IterateTestCases(func(name string, tc *verifier.TestCase) error {
+			got = append(got, name)
+			return nil
+		})
+	}
+	sort.Strings(got)
+	res := "err"
+	if err == nil {
+		res = fmt.Sprintf("ok:%d:%s", cnt, strings.Join(got, ";"))
+	}
+	h.record("list", res)
+}
+
+func (h *repoHist) plant(f string) {
+	h.write(f, "text")
+	h.record("plant:"+f, "ok")
+}
+
+// plantCase: a hand-written case file and its driver (the script is not created)
+func (h *repoHist) plantCase(n, dr, sc string) {
+	h.write(n, fmt.Sprintf(`{"Name":"d","TestDriverSource":"%s","TestScript":"%s"}`, dr, sc))
+	h.write(dr, "text")
+	h.record("plantcase:"+n+":"+dr+":"+sc, "ok")
+}
+
+// plantMany: cnt files <prefix>0000.txt ... that are no case files (a test directory with many entries)
+func (h *repoHist) plantMany(prefix string, cnt int) {
+	names := []string{}
+	for i := 0; i < cnt; i++ {
+		names = append(names, fmt.Sprintf("%s%04d.txt", prefix, i))
+	}
+	h.writeMany(names, "text", "O0")
+	h.record(fmt.Sprintf("plantmany:%s:%d", prefix, cnt), "ok")
+	count("caserepo.bigdir")
+}
+
+// plantCases: cnt hand-written case files <prefix>0000.json ... that all name the same driver and script (the two
+// files themselves are planted separately)
+func (h *repoHist) plantCases(prefix string, cnt int, dr, sc string) {
+	names := []string{}
+	for i := 0; i < cnt; i++ {
+		names = append(names, fmt.Sprintf("%s%04d.json", prefix, i))
+	}
+	h.writeMany(names, fmt.Sprintf(`{"Name":"d","TestDriverSource":"%s","TestScript":"%s"}`, dr, sc), fmt.Sprintf("C:%s:%s", dr, sc))
+	h.record(fmt.Sprintf("plantcases:%s:%d:%s:%s", prefix, cnt, dr, sc), "ok")
+	count("caserepo.manycases")
+}
+
+func (h *repoHist) line() string {
+	count("caserepo")
+	return fmt.Sprintf("repo %s => %s", strings.Join(h.ops, " "), strings.Join(h.outs, " "))
+}
+
+// run: execute a scripted history (the operations in the notation of the request)
+func (h *repoHist) run(script string) {
+	for _, op := range strings.Fields(script) {
+		f := strings.Split(op, ":")
+		num := func(i int) int {
+			v, err := strconv.Atoi(f[i])
+			if err != nil {
+				panic("caserepo script: " + op)
+			}
+			return v
+		}
+		switch {
+		case f[0] == "add" && len(f) == 2:
+			h.add(f[1])
+		case f[0] == "addt" && len(f) == 3:
+			h.addt(f[1], f[2])
+		case f[0] == "del" && len(f) == 2:
+			h.del(f[1])
+		case f[0] == "list" && len(f) == 1:
+			h.list(false)
+		case f[0] == "listcmd" && len(f) == 1:
+			h.list(true)
+		case f[0] == "plant" && len(f) == 2:
+			h.plant(f[1])
+		case f[0] == "plantcase" && len(f) == 4:
+			h.plantCase(f[1], f[2], f[3])
+		case f[0] == "plantmany" && len(f) == 3:
+			h.plantMany(f[1], num(2))
+		case f[0] == "plantcases" && len(f) == 5:
+			h.plantCases(f[1], num(2), f[3], f[4])
+		default:
+			panic("caserepo script: " + op)
+		}
+	}
+}
+
+// caseRepoFixed: boundary histories that are part of every run
+func caseRepoFixed() {
+	script := func(viaCmd bool, asm string, s string) {
+		h := newRepoHist(viaCmd, asm)
+		defer h.close()
+		h.run(s)
+		count("caserepo.fixed")
+		emit(h.line())
+	}
+	// case names ending in one of the letters of the extension (j, s, o, n) or in a dot, next to the case with the
+	// shortened name: delcase - named with or without .json - removes the named case and nothing else
+	for i, p := range [][2]string{{"test", "tests"}, {"div", "divs"}, {"versi", "version"}, {"add", "addn"}, {"ob", "obj"}, {"dem", "demo"}, {"rel", "rel."}, {"x", "xjson"}} {
+		short, long := p[0], p[1]
+		viaCmd := i%2 == 1
+		asm := []string{"acme", "64tass", "ca65"}[i%3]
+		script(viaCmd, asm, fmt.Sprintf("add:%s add:%s list del:%s list del:%s.json listcmd add:%s del:%s.json del:%s list", short, long, long, short, short, long, short))
+		script(!viaCmd, asm, fmt.Sprintf("add:%s addt:%s:%s.a del:%s.json list del:%s list", long, short, long, long, long))
+		script(viaCmd, asm, fmt.Sprintf("add:%s del:%s add:%s addt:%s:%s.a del:%s listcmd del:%s list", long, long, short, long, short, long, short))
+	}
+	// test directories with more than 1000 entries: list enumerates every case file; delcase counts the references of every case
+	// 1001 case files (and nothing else but their driver and script)
+	script(false, "acme", "plant:shared.a plant:shared.lua plantcases:g:1001:shared.a:shared.lua list del:g0500 list")
+	// case files among other files, through the commands
+	script(true, "acme", "plant:shared.a plant:shared.lua plantcases:g:700:shared.a:shared.lua plantmany:f:320 listcmd del:g0000.json list")
+	// exactly 1000 and 1001 entries
+	script(false, "acme", "add:a addt:b:a.a plantmany:f:995 list plant:one.txt list del:a del:b list")
+	// cases that share a driver, created before and after a great many other files
+	script(false, "acme", "add:a addt:b:a.a add:c addt:x:c.a plantmany:f:2000 list del:a del:c.json list")
+	script(true, "64tass", "plantmany:f:2000 add:tests addt:test:tests.a add:c addt:x:c.a del:x del:tests listcmd")
+}
+
+// bigDirsLeft: how many more of the random histories may plant a directory with more than 1000 entries (they are expensive:
+// the complete directory content is recorded after every operation)
+var bigDirsLeft int
+
+func caseRepoHistory(r *rng.R, n int) string {
+	// 40%: through the real newcase / delcase commands with a configuration file that names the directory
+	viaCmd := r.Chance(40)
+	asmType := ""
+	if viaCmd {
+		asmType = []string{"acme", "64tass", "ca65"}[r.Intn(3)]
+	}
+	h := newRepoHist(viaCmd, asmType)
+	defer h.close()
+	dir := h.dir
 	names := []string{"a", "b", "c", "x"}
+	drivers := []string{"a.a", "b.a", "shared.a", "x.lua", "a.lua", "c.json", "lib.a"}
+	plantable := []string{"notes.txt", "shared.a", "lib.a", "x.lua", "a.a", "b.a", "b.lua", "a.v2.a", "x.a"}
 	if r.Chance(35) {
 		// dotted and otherwise unusual case names
 		names = []string{"a", "a.v2", "b", "a.b", "x"}
+	} else if r.Chance(25) {
+		// a case name that ends in one of the letters of the extension .json (or in a dot) next to the case with the shortened
+		// name: the name given to delcase is the case name or the name of the case file, never anything shorter
+		p := [][2]string{{"test", "tests"}, {"div", "divs"}, {"versi", "version"}, {"add", "addn"}, {"ob", "obj"}, {"rel", "rel."},
+			{"x", "xjson"}, {"a", "a.s"}, {"b", "b.json.o"}, {"c", "cs.n"}}[r.Intn(10)]
+		names = []string{p[0], p[1], p[0], p[1], "x"}
+		drivers = []string{p[0] + ".a", p[1] + ".a", "shared.a", p[0] + ".lua", p[1] + ".lua", p[0] + ".json", "lib.a"}
+		plantable = []string{"notes.txt", "shared.a", "lib.a", p[0] + ".a", p[1] + ".a", p[1] + ".lua", p[0] + ".lua", "x.a", p[0]}
+		count("caserepo.suffixnames")
 	}
-	drivers := []string{"a.a", "b.a", "shared.a", "x.lua", "a.lua", "c.json", "lib.a"}
-	var ops, outs []string
 	// optionally plant files
 	if r.Chance(20) {
 		os.WriteFile(filepath.Join(dir, "junk.json"), []byte("{not json"), 0600)
-		ops = append(ops, "plantbad:junk.json")
-		outs = append(outs, "ok|"+dirListing(dir))
+		h.record("plantbad:junk.json", "ok")
 	}
 	for r.Chance(45) {
-		f := []string{"notes.txt", "shared.a", "lib.a", "x.lua", "a.a", "b.a", "b.lua", "a.v2.a", "x.a"}[r.Intn(9)]
-		os.WriteFile(filepath.Join(dir, f), []byte("text"), 0600)
-		ops = append(ops, "plant:"+f)
-		outs = append(outs, "ok|"+dirListing(dir))
+		h.plant(plantable[r.Intn(len(plantable))])
 	}
 	if r.Chance(12) {
 		// a sub directory with shared drivers: a case may name a file inside it — or, by mistake, the directory itself
 		os.Mkdir(filepath.Join(dir, "common"), 0700)
 		os.WriteFile(filepath.Join(dir, "common", "drv.a"), []byte("text"), 0600)
 		os.WriteFile(filepath.Join(dir, "common", "lib.a"), []byte("text"), 0600)
-		ops = append(ops, "plantdir:common")
-		outs = append(outs, "ok|"+dirListing(dir))
-		drivers = []string{"common", "common/drv.a", "common/drv.a", "common/lib.a", "a.a", "shared.a"}
+		h.record("plantdir:common", "ok")
+		drivers = []string{"common", "common/drv.a", "common/drv.a", "common/lib.a", names[0] + ".a", "shared.a"}
 		count("caserepo.subdir")
 	}
 	if r.Chance(8) {
 		// a hand-written case file whose driver exists and whose script was never created (or was deleted by hand)
-		os.WriteFile(filepath.Join(dir, "p.json"), []byte(`{"Name":"d","TestDriverSource":"p.a","TestScript":"ghost.lua"}`), 0600)
-		os.WriteFile(filepath.Join(dir, "p.a"), []byte("text"), 0600)
-		ops = append(ops, "plantcase:p.json:p.a:ghost.lua")
-		outs = append(outs, "ok|"+dirListing(dir))
+		h.plantCase("p.json", "p.a", "ghost.lua")
 		names = append(names, "p", "p")
 		count("caserepo.ghostscript")
-	} else if len(ops) == 0 && r.Chance(10) {
+	} else if len(h.ops) == 0 && r.Chance(10) {
 		// a case file that is a symbolic link to a file kept elsewhere: a case file like any other; it shares its driver
-		ext, err := os.MkdirTemp("", "verif-repoext")
-		if err != nil {
-			panic(err)
-		}
-		defer os.RemoveAll(ext)
+		ext := h.mkTemp("verif-repoext")
 		data, _ := json.Marshal(verifier.NewTestCaseWithDriver("d", "linked", "shared.a"))
 		os.WriteFile(filepath.Join(ext, "linked.json"), data, 0600)
 		os.Symlink(filepath.Join(ext, "linked.json"), filepath.Join(dir, "linked.json"))
 		os.WriteFile(filepath.Join(dir, "shared.a"), []byte("text"), 0600)
-		ops = append(ops, "plantlink:linked.json")
-		outs = append(outs, "ok|"+dirListing(dir))
-		drivers = []string{"shared.a", "shared.a", "a.a", "lib.a"}
+		h.record("plantlink:linked.json", "ok")
+		drivers = []string{"shared.a", "shared.a", names[0] + ".a", "lib.a"}
 		count("caserepo.symlink")
 	}
-	if len(ops) == 0 && !viaCmd && r.Chance(6) {
+	if len(h.ops) == 0 && !viaCmd && r.Chance(6) {
 		// a case that shares its DRIVER with one case and its SCRIPT with another: deleting it may remove neither
-		step := func(op string, err error) {
-			res := "ok"
-			if err != nil {
-				res = "err"
-			}
-			ops = append(ops, op)
-			outs = append(outs, res+"|"+dirListing(dir))
-		}
-		step("add:a", repo.Add("a", verifier.NewTestCase("d", "a"), true))
-		step("addt:b:a.a", repo.Add("b", verifier.NewTestCaseWithDriver("d", "b", "a.a"), false))
-		os.WriteFile(filepath.Join(dir, "q.json"), []byte(`{"Name":"d","TestDriverSource":"q.a","TestScript":"a.lua"}`), 0600)
-		os.WriteFile(filepath.Join(dir, "q.a"), []byte("text"), 0600)
-		step("plantcase:q.json:q.a:a.lua", nil)
-		step("del:a", repo.Del("a"))
+		a, b := names[0], names[1]
+		h.add(a)
+		h.addt(b, a+".a")
+		h.plantCase("q.json", "q.a", a+".lua")
+		h.del(a)
 		names = append(names, "q")
 		count("caserepo.sharedboth")
 	}
+	// rarely: a great many other files appear in the directory at some point of the history (1000 entries and more)
+	bigAt := -1
+	if bigDirsLeft > 0 && r.Chance(1) {
+		bigDirsLeft--
+		bigAt = r.Intn(n)
+	}
 	for i := 0; i < n; i++ {
-		res := "ok"
+		if i == bigAt {
+			h.plantMany("f", []int{990, 1000, 1001, 1100, 1500, 2200}[r.Intn(6)]+r.Intn(8))
+		}
 		switch k := r.Intn(10); {
 		case k < 4:
 			nm := names[r.Intn(len(names))]
@@ -167,79 +416,27 @@ func caseRepoHistory(r *rng.R, n int) string {
 				nm = "nodir/" + nm
 			}
 			if r.Chance(60) {
-				if viaCmd {
-					err = commands.NewCaseCommand([]string{"-c", cfgFile, "-p", nm, "-d", "d"})
-				} else {
-					err = repo.Add(nm, verifier.NewTestCase("d", nm), true)
-				}
-				ops = append(ops, "add:"+nm)
+				h.add(nm)
 			} else {
-				dr := drivers[r.Intn(len(drivers))]
-				if viaCmd {
-					err = commands.NewCaseCommand([]string{"-c", cfgFile, "-p", nm, "-d", "d", "-t", dr})
-				} else {
-					err = repo.Add(nm, verifier.NewTestCaseWithDriver("d", nm, dr), false)
-				}
-				ops = append(ops, "addt:"+nm+":"+dr)
-			}
-			if err != nil {
-				res = "err"
+				h.addt(nm, drivers[r.Intn(len(drivers))])
 			}
 		case k < 8:
 			nm := names[r.Intn(len(names))]
 			if r.Chance(30) {
 				nm += ".json"
 			}
-			if viaCmd {
-				err = commands.DelCommand([]string{"-c", cfgFile, "-t", nm})
-			} else {
-				err = repo.Del(nm)
-			}
-			if err != nil {
-				res = "err"
-			}
-			ops = append(ops, "del:"+nm)
+			h.del(nm)
 		default:
-			got := []string{}
-			var cnt uint
-			var err error
-			if viaCmd && r.Bool() {
-				// the real `list` command: one line `<description> => <case file>` per case (all descriptions are equal here)
-				var text []byte
-				var panicked bool
-				text, panicked = captureStdout(func() { err = commands.ListCommand([]string{"-c", cfgFile}) })
-				if panicked {
-					err = fmt.Errorf("panic")
-				}
-				for _, l := range strings.Split(string(text), "\n") {
-					if i := strings.LastIndex(l, " => "); i >= 0 {
-						got = append(got, strings.TrimSpace(l[i+4:]))
-					}
-				}
-				cnt = uint(len(got))
-				count("caserepo.listcommand")
-			} else {
-				cnt, err = repo.IterateTestCases(func(name string, tc *verifier.TestCase) error {
-					got = append(got, name)
-					return nil
-				})
-			}
-			sort.Strings(got)
-			if err != nil {
-				res = "err"
-			} else {
-				res = fmt.Sprintf("ok:%d:%s", cnt, strings.Join(got, ";"))
-			}
-			ops = append(ops, "list")
+			h.list(viaCmd && r.Bool())
 		}
-		outs = append(outs, res+"|"+dirListing(dir))
 	}
-	count("caserepo")
-	return fmt.Sprintf("repo %s => %s", strings.Join(ops, " "), strings.Join(outs, " "))
+	return h.line()
 }
 
 func caseRepoStream(seed uint64, n int) {
+	caseRepoFixed()
 	r := rng.New(seed + 1818)
+	bigDirsLeft = 4 + n/1000
 	for i := 0; i < n; i++ {
 		emit(caseRepoHistory(r, 4+r.Intn(12)))
 	}
